@@ -519,7 +519,7 @@ theorem trsvLN_correct (F : LUFac K) (H : SCLayout F) (M : Nat → Nat → K) (b
     (hM : ∀ i j, i ≠ j → M i j = F.decodeL i j)
     (hy : ∀ i, i < F.L.n → y i = b i - ∑ j ∈ range i, M i j * y j)
     (x : Array K) (hx : x.size = F.L.n) (hb : ∀ i, i < F.L.n → x[i]! = b i) :
-    ∀ i, i < F.L.n → (trsvLN F x)[i]! = y i := by
+    (trsvLN F x).size = F.L.n ∧ ∀ i, i < F.L.n → (trsvLN F x)[i]! = y i := by
   rw [trsvLN_eq]
   have := fold_up (fun k x => stepLN F (snode F.L k) x) (fun c x => InvLN M b y F.L.n c x)
     (fun k => F.L.xsup[k]!) (F.L.nsuper + 1)
@@ -529,26 +529,28 @@ theorem trsvLN_correct (F : LUFac K) (H : SCLayout F) (M : Nat → Nat → K) (b
       rw [G.hi] at this; exact this) x
     (by rw [H.first]; exact ⟨hx, fun i hi => by omega, fun i _ hi => by simp [hb i hi]⟩)
   rw [H.last] at this
-  exact this.2.1
+  exact ⟨this.1, this.2.1⟩
 
 theorem spTrsv_LN (F : LUFac K) (H : SCLayout F) (unit : Bool) (b : Array K) (hb : b.size = F.L.n) :
+    (spTrsv F .L .N unit b).size = F.L.n ∧
     ∀ i, i < F.L.n → (spTrsv F .L .N unit b)[i]! = (trsvRef F .L .N unit b)[i]! := by
-  intro i hi
-  have hn : (F.L.n == 0) = false := by simp; omega
+  by_cases h0 : F.L.n = 0
+  · exact ⟨by simp [spTrsv, h0, hb], fun i hi => by omega⟩
+  have hn : (F.L.n == 0) = false := by simpa using h0
   have hl : effLower .L .N = true := rfl
   simp only [spTrsv, hn, Bool.false_eq_true, if_false, trsvRef, hl, if_true]
   have hdiag : ∀ i, trsvMat F .L .N unit i i = 1 := by
     intro i; unfold trsvMat
     have : (UpLo.L == UpLo.L) = true := rfl
     cases unit <;> simp [opM, this, LUFac.decodeL]
-  rw [getElem!_eq_getD_of_lt (fwdSub _ _ _ _) i (by rw [fwdSub_size]; exact hi)]
-  refine trsvLN_correct F H (trsvMat F .L .N unit) (fun i => b.getD i 0)
+  have key := trsvLN_correct F H (trsvMat F .L .N unit) (fun i => b.getD i 0)
     (fun i => (fwdSub (trsvMat F .L .N unit) (fun i => trsvMat F .L .N unit i i) (fun i => b.getD i 0) F.L.n).getD i 0)
-    ?_ ?_ b hb ?_ i hi
-  · intro i j hij; rw [trsvMat_offdiag F _ _ _ i j hij]; rfl
-  · intro i hi
-    rw [fwd_rec _ _ _ _ i hi, hdiag, div_one]
-  · intro i hi; exact getElem!_eq_getD_of_lt b i (by omega)
+    (fun i j hij => by rw [trsvMat_offdiag F _ _ _ i j hij]; rfl)
+    (fun i hi => by rw [fwd_rec _ _ _ _ i hi, hdiag, div_one]) b hb
+    (fun i hi => getElem!_eq_getD_of_lt b i (by omega))
+  refine ⟨key.1, fun i hi => ?_⟩
+  rw [getElem!_eq_getD_of_lt (fwdSub _ _ _ _) i (by rw [fwdSub_size]; exact hi)]
+  exact key.2 i hi
 
 end LNmain
 
@@ -743,7 +745,7 @@ theorem trsvUN_correct (F : LUFac K) (H : SCLayout F) (unit : Bool) (M : Nat →
     (hd : ∀ i, M i i = if unit then 1 else F.decodeU i i)
     (hy : ∀ i, i < F.L.n → y i = (b i - ∑ j ∈ Ico (i + 1) F.L.n, M i j * y j) / M i i)
     (x : Array K) (hx : x.size = F.L.n) (hb : ∀ i, i < F.L.n → x[i]! = b i) :
-    ∀ i, i < F.L.n → (trsvUN F unit x)[i]! = y i := by
+    (trsvUN F unit x).size = F.L.n ∧ ∀ i, i < F.L.n → (trsvUN F unit x)[i]! = y i := by
   rw [trsvUN_eq]
   have := fold_down (fun k x => stepUN F unit (snode F.L k) x) (fun c x => InvUN M b y F.L.n c x)
     (fun k => F.L.xsup[k]!) F.L.nsuper
@@ -753,30 +755,31 @@ theorem trsvUN_correct (F : LUFac K) (H : SCLayout F) (unit : Bool) (M : Nat →
       rw [G.hi]; exact hinv) x
     (by rw [H.last]; exact ⟨hx, fun i hi hi' => by omega, fun i hi => by simp [hb i hi]⟩)
   rw [H.first] at this
-  intro i hi
-  exact this.2.1 i (by omega) hi
+  exact ⟨this.1, fun i hi => this.2.1 i (by omega) hi⟩
+
+theorem toArray_get (l : List K) (i : Nat) (hi : i < l.length) : l.toArray[i]! = l.getD i 0 := by
+  simp [hi, List.getD_eq_getElem?_getD]
 
 theorem spTrsv_UN (F : LUFac K) (H : SCLayout F) (unit : Bool) (b : Array K) (hb : b.size = F.L.n) :
+    (spTrsv F .U .N unit b).size = F.L.n ∧
     ∀ i, i < F.L.n → (spTrsv F .U .N unit b)[i]! = (trsvRef F .U .N unit b)[i]! := by
-  intro i hi
-  have hn : (F.L.n == 0) = false := by simp; omega
+  by_cases h0 : F.L.n = 0
+  · exact ⟨by simp [spTrsv, h0, hb], fun i hi => by omega⟩
+  have hn : (F.L.n == 0) = false := by simpa using h0
   have hl : effLower .U .N = false := rfl
   simp only [spTrsv, hn, Bool.false_eq_true, if_false, trsvRef, hl]
   have hUL : (UpLo.U == UpLo.L) = false := rfl
   have hdiag : ∀ i, trsvMat F .U .N unit i i = if unit then 1 else F.decodeU i i := by
     intro i; unfold trsvMat
     cases unit <;> simp [opM, hUL]
-  have hg : ∀ (l : List K) (i : Nat), i < l.length → l.toArray[i]! = l.getD i 0 := by
-    intro l i hi
-    simp [hi, List.getD_eq_getElem?_getD]
-  rw [hg (bwdSub _ _ _ _ _) i (by rw [bwdSub_length]; exact hi)]
-  refine trsvUN_correct F H unit (trsvMat F .U .N unit) (fun i => b.getD i 0)
+  have key := trsvUN_correct F H unit (trsvMat F .U .N unit) (fun i => b.getD i 0)
     (fun i => (bwdSub (trsvMat F .U .N unit) (fun i => trsvMat F .U .N unit i i) (fun i => b.getD i 0) F.L.n F.L.n).getD i 0)
-    ?_ hdiag ?_ b hb ?_ i hi
-  · intro i j hij; rw [trsvMat_offdiag F _ _ _ i j hij]; rfl
-  · intro i hi
-    exact bwd_rec _ _ _ _ i hi
-  · intro i hi; exact getElem!_eq_getD_of_lt b i (by omega)
+    (fun i j hij => by rw [trsvMat_offdiag F _ _ _ i j hij]; rfl) hdiag
+    (fun i hi => bwd_rec _ _ _ _ i hi) b hb
+    (fun i hi => getElem!_eq_getD_of_lt b i (by omega))
+  refine ⟨key.1, fun i hi => ?_⟩
+  rw [toArray_get (bwdSub _ _ _ _ _) i (by rw [bwdSub_length]; exact hi)]
+  exact key.2 i hi
 
 end UN
 
@@ -1059,7 +1062,7 @@ theorem trsvLT_correct (F : LUFac K) (H : SCLayout F) (tr : Tr) (htr : tr = Tr.C
     (hM : ∀ i j, i ≠ j → M i j = cj tr (F.decodeL j i))
     (hy : ∀ i, i < F.L.n → y i = b i - ∑ j ∈ Ico (i + 1) F.L.n, M i j * y j)
     (x : Array K) (hx : x.size = F.L.n) (hb : ∀ i, i < F.L.n → x[i]! = b i) :
-    ∀ i, i < F.L.n → (trsvLT F tr x)[i]! = y i := by
+    (trsvLT F tr x).size = F.L.n ∧ ∀ i, i < F.L.n → (trsvLT F tr x)[i]! = y i := by
   rw [trsvLT_eq]
   have := fold_down (fun k x => stepLT F tr (snode F.L k) x) (fun c x => InvB b y F.L.n c x)
     (fun k => F.L.xsup[k]!) F.L.nsuper
@@ -1069,17 +1072,15 @@ theorem trsvLT_correct (F : LUFac K) (H : SCLayout F) (tr : Tr) (htr : tr = Tr.C
       rw [G.hi]; exact hinv) x
     (by rw [H.last]; exact ⟨hx, fun i hi hi' => by omega, fun i hi => hb i hi⟩)
   rw [H.first] at this
-  intro i hi
-  exact this.2.1 i (by omega) hi
-
-theorem toArray_get (l : List K) (i : Nat) (hi : i < l.length) : l.toArray[i]! = l.getD i 0 := by
-  simp [hi, List.getD_eq_getElem?_getD]
+  exact ⟨this.1, fun i hi => this.2.1 i (by omega) hi⟩
 
 theorem spTrsv_LT (F : LUFac K) (H : SCLayout F) (tr : Tr) (htn : tr ≠ Tr.N) (htr : tr = Tr.C → ConjOK K)
     (unit : Bool) (b : Array K) (hb : b.size = F.L.n) :
+    (spTrsv F .L tr unit b).size = F.L.n ∧
     ∀ i, i < F.L.n → (spTrsv F .L tr unit b)[i]! = (trsvRef F .L tr unit b)[i]! := by
-  intro i hi
-  have hn : (F.L.n == 0) = false := by simp; omega
+  by_cases h0 : F.L.n = 0
+  · exact ⟨by simp [spTrsv, h0, hb], fun i hi => by omega⟩
+  have hn : (F.L.n == 0) = false := by simpa using h0
   have hl : effLower .L tr = false := by cases tr <;> first | exact absurd rfl htn | rfl
   have hsp : spTrsv F .L tr unit b = trsvLT F tr b := by
     cases tr
@@ -1097,15 +1098,16 @@ theorem spTrsv_LT (F : LUFac K) (H : SCLayout F) (tr : Tr) (htn : tr ≠ Tr.N) (
     · simp only [Bool.false_and, Bool.false_eq_true, if_false, hLL, if_true]
       rw [opM_tr tr htn, decodeL_diag, cj_one tr htr]
     · simp
-  rw [toArray_get (bwdSub _ _ _ _ _) i (by rw [bwdSub_length]; exact hi)]
-  refine trsvLT_correct F H tr htr (trsvMat F .L tr unit) (fun i => b.getD i 0)
+  have key := trsvLT_correct F H tr htr (trsvMat F .L tr unit) (fun i => b.getD i 0)
     (fun i => (bwdSub (trsvMat F .L tr unit) (fun i => trsvMat F .L tr unit i i) (fun i => b.getD i 0) F.L.n F.L.n).getD i 0)
-    hoff ?_ b hb ?_ i hi
-  · intro i hi
-    have := bwd_rec (trsvMat F .L tr unit) (fun i => trsvMat F .L tr unit i i) (fun i => b.getD i 0) F.L.n i hi
-    rw [hdiag, div_one] at this
-    exact this
-  · intro i hi; exact getElem!_eq_getD_of_lt b i (by omega)
+    hoff (fun i hi => by
+      have := bwd_rec (trsvMat F .L tr unit) (fun i => trsvMat F .L tr unit i i) (fun i => b.getD i 0) F.L.n i hi
+      rw [hdiag, div_one] at this
+      exact this) b hb
+    (fun i hi => getElem!_eq_getD_of_lt b i (by omega))
+  refine ⟨key.1, fun i hi => ?_⟩
+  rw [toArray_get (bwdSub _ _ _ _ _) i (by rw [bwdSub_length]; exact hi)]
+  exact key.2 i hi
 
 /-- one supernode of `trsvUT` -/
 def stepUT (F : LUFac K) (tr : Tr) (unit : Bool) (s : SN) (x : Array K) : Array K :=
@@ -1184,7 +1186,7 @@ theorem trsvUT_correct (F : LUFac K) (H : SCLayout F) (tr : Tr) (htr : tr = Tr.C
     (hd : ∀ i, M i i = if unit then 1 else cj tr (F.decodeU i i))
     (hy : ∀ i, i < F.L.n → y i = (b i - ∑ j ∈ range i, M i j * y j) / M i i)
     (x : Array K) (hx : x.size = F.L.n) (hb : ∀ i, i < F.L.n → x[i]! = b i) :
-    ∀ i, i < F.L.n → (trsvUT F tr unit x)[i]! = y i := by
+    (trsvUT F tr unit x).size = F.L.n ∧ ∀ i, i < F.L.n → (trsvUT F tr unit x)[i]! = y i := by
   rw [trsvUT_eq]
   have := fold_up (fun k x => stepUT F tr unit (snode F.L k) x) (fun c x => InvF b y F.L.n c x)
     (fun k => F.L.xsup[k]!) (F.L.nsuper + 1)
@@ -1194,13 +1196,15 @@ theorem trsvUT_correct (F : LUFac K) (H : SCLayout F) (tr : Tr) (htr : tr = Tr.C
       rw [G.hi] at this; exact this) x
     (by rw [H.first]; exact ⟨hx, fun i hi => by omega, fun i _ hi => hb i hi⟩)
   rw [H.last] at this
-  exact this.2.1
+  exact ⟨this.1, this.2.1⟩
 
 theorem spTrsv_UT (F : LUFac K) (H : SCLayout F) (tr : Tr) (htn : tr ≠ Tr.N) (htr : tr = Tr.C → ConjOK K)
     (unit : Bool) (b : Array K) (hb : b.size = F.L.n) :
+    (spTrsv F .U tr unit b).size = F.L.n ∧
     ∀ i, i < F.L.n → (spTrsv F .U tr unit b)[i]! = (trsvRef F .U tr unit b)[i]! := by
-  intro i hi
-  have hn : (F.L.n == 0) = false := by simp; omega
+  by_cases h0 : F.L.n = 0
+  · exact ⟨by simp [spTrsv, h0, hb], fun i hi => by omega⟩
+  have hn : (F.L.n == 0) = false := by simpa using h0
   have hl : effLower .U tr = true := by cases tr <;> first | exact absurd rfl htn | rfl
   have hsp : spTrsv F .U tr unit b = trsvUT F tr unit b := by
     cases tr
@@ -1218,17 +1222,18 @@ theorem spTrsv_UT (F : LUFac K) (H : SCLayout F) (tr : Tr) (htn : tr ≠ Tr.N) (
     · simp only [Bool.false_and, Bool.false_eq_true, if_false, hUL]
       rw [opM_tr tr htn]
     · simp
-  rw [getElem!_eq_getD_of_lt (fwdSub _ _ _ _) i (by rw [fwdSub_size]; exact hi)]
-  refine trsvUT_correct F H tr htr unit (trsvMat F .U tr unit) (fun i => b.getD i 0)
+  have key := trsvUT_correct F H tr htr unit (trsvMat F .U tr unit) (fun i => b.getD i 0)
     (fun i => (fwdSub (trsvMat F .U tr unit) (fun i => trsvMat F .U tr unit i i) (fun i => b.getD i 0) F.L.n).getD i 0)
-    hoff hdiag ?_ b hb ?_ i hi
-  · intro i hi
-    exact fwd_rec _ _ _ _ i hi
-  · intro i hi; exact getElem!_eq_getD_of_lt b i (by omega)
+    hoff hdiag (fun i hi => fwd_rec _ _ _ _ i hi) b hb
+    (fun i hi => getElem!_eq_getD_of_lt b i (by omega))
+  refine ⟨key.1, fun i hi => ?_⟩
+  rw [getElem!_eq_getD_of_lt (fwdSub _ _ _ _) i (by rw [fwdSub_size]; exact hi)]
+  exact key.2 i hi
 
 /-- **the supernodal model equals the dense reference**, all twelve `uplo × trans × diag` combinations -/
 theorem spTrsv_eq_ref (F : LUFac K) (H : SCLayout F) (uplo : UpLo) (tr : Tr) (htr : tr = Tr.C → ConjOK K)
     (unit : Bool) (b : Array K) (hb : b.size = F.L.n) :
+    (spTrsv F uplo tr unit b).size = F.L.n ∧
     ∀ i, i < F.L.n → (spTrsv F uplo tr unit b)[i]! = (trsvRef F uplo tr unit b)[i]! := by
   cases uplo
   · by_cases htn : tr = Tr.N
@@ -1239,5 +1244,73 @@ theorem spTrsv_eq_ref (F : LUFac K) (H : SCLayout F) (uplo : UpLo) (tr : Tr) (ht
     · exact spTrsv_UT F H tr htn htr unit b hb
 
 end TR
+
+/-! ### the decoded factors are triangular -/
+
+section tri
+variable {K : Type} [Field K] [Conj K] [Inhabited K] {F : LUFac K}
+
+/-- every column lies in exactly one supernode -/
+theorem SCLayout.find (H : SCLayout F) (j : Nat) (hj : j < F.L.n) :
+    ∃ k, k < F.L.nsuper + 1 ∧ ∃ c, c < (snode F.L k).nsupc ∧ j = (snode F.L k).fsupc + c := by
+  have key : ∀ N, N ≤ F.L.nsuper + 1 → j < F.L.xsup[N]! → ∃ k, k < N ∧ F.L.xsup[k]! ≤ j ∧ j < F.L.xsup[k+1]! := by
+    intro N
+    induction N with
+    | zero => intro _ h; rw [H.first] at h; omega
+    | succ N ih =>
+      intro hN h
+      by_cases hlt : j < F.L.xsup[N]!
+      · obtain ⟨k, hk, h1, h2⟩ := ih (by omega) hlt
+        exact ⟨k, by omega, h1, h2⟩
+      · exact ⟨N, by omega, by omega, h⟩
+  obtain ⟨k, hk, h1, h2⟩ := key (F.L.nsuper + 1) (le_refl _) (by rw [H.last]; exact hj)
+  refine ⟨k, hk, j - F.L.xsup[k]!, ?_, ?_⟩
+  · show j - F.L.xsup[k]! < F.L.xsup[k+1]! - F.L.xsup[k]!
+    omega
+  · show j = F.L.xsup[k]! + (j - F.L.xsup[k]!)
+    omega
+
+theorem SCLayout.decodeL_upper (H : SCLayout F) (i j : Nat) (hj : j < F.L.n) (hij : i < j) : F.decodeL i j = 0 := by
+  obtain ⟨k, hk, c, hc, rfl⟩ := H.find j hj
+  have G := H.sn k hk
+  apply G.decodeL_miss c i hc (by omega)
+  intro p hcp hp
+  by_cases hpw : p < (snode F.L k).nsupc
+  · rw [G.lead p hpw]; omega
+  · have := (G.trail p (by omega) hp).1; omega
+
+theorem SCLayout.decodeU_lower (H : SCLayout F) (i j : Nat) (hj : j < F.L.n) (hij : j < i) : F.decodeU i j = 0 := by
+  obtain ⟨k, hk, c, hc, rfl⟩ := H.find j hj
+  exact (H.sn k hk).decodeU_below i c hc hij
+
+/-- `op(decodeL)` / `op(decodeU)` is triangular on well-formed storage -/
+theorem SCLayout.trsvMat_tri (H : SCLayout F) (uplo : UpLo) (tr : Tr) (htr : tr = Tr.C → ConjOK K) (unit : Bool)
+    (i j : Nat) (hi : i < F.L.n) (hj : j < F.L.n) (h : if effLower uplo tr then i < j else j < i) :
+    trsvMat F uplo tr unit i j = 0 := by
+  have hne : i ≠ j := by split at h <;> omega
+  rw [trsvMat_offdiag F uplo tr unit i j hne]
+  have hLL : (UpLo.L == UpLo.L) = true := rfl
+  have hUL : (UpLo.U == UpLo.L) = false := rfl
+  cases uplo
+  · simp only [hLL, if_true]
+    by_cases htn : tr = Tr.N
+    · subst htn
+      have : effLower .L .N = true := rfl
+      simp only [this, if_true] at h
+      exact H.decodeL_upper i j hj h
+    · have : effLower .L tr = false := by cases tr <;> first | exact absurd rfl htn | rfl
+      simp only [this, Bool.false_eq_true, if_false] at h
+      rw [opM_tr tr htn, H.decodeL_upper j i hi h, cj_zero tr htr]
+  · simp only [hUL, Bool.false_eq_true, if_false]
+    by_cases htn : tr = Tr.N
+    · subst htn
+      have : effLower .U .N = false := rfl
+      simp only [this, Bool.false_eq_true, if_false] at h
+      exact H.decodeU_lower i j hj h
+    · have : effLower .U tr = true := by cases tr <;> first | exact absurd rfl htn | rfl
+      simp only [this, if_true] at h
+      rw [opM_tr tr htn, H.decodeU_lower j i hi h, cj_zero tr htr]
+
+end tri
 
 end Slu.Kernels
